@@ -17,6 +17,8 @@ import PMC.Model.Fair
 import PMC.Model.LTLAtoms
 import PMC.Model.BDDApi
 import PMC.Generated.ClassTable
+import PMC.Model.FormulaApi
+import PMC.Model.KripkeApi
 open PMC
 
 /-! ### decoding -/
@@ -549,6 +551,88 @@ def storeSession (ops : List String) : List String :=
     | _ => (s, "bad-op" :: outs)) ((⟨[], 0⟩ : Store), [])
   outs.reverse
 
+
+/-! ### the rest of the formula API (PMC/Model/FormulaApi.lean), with the table extracted from the live code
+
+  `FAPI|<M>|<op>|<arg1>[|<arg2>]`   answer `OK <sexpr>` (for `subs`: `OK <sexpr> ; <sexpr> ; …`) or `ERR <exception name>`
+     operand encoding: `<Mi> <sexpr>` a formula object built in module Mi; `s <name>` a str; `b 1` / `b 0` a bool;
+        `B` an object of the base module pyModelChecking.language; `o` any other value
+     `and` / `or` / `rand` / `ror`   arg1 = S-expression of the formula whose method runs (an object of <M>), arg2 = the
+                                     other operand: `f & g`, `f | g`, `g & f`, `g | f`
+     `not`                           arg1 = S-expression: `~f`
+     `AX` … `EG` (arg1 an operand), `AU` … `ER` (arg1, arg2 operands): the shortcuts of the CTL module (<M> is ignored)
+     `new <ClassName>`               `<M>.<ClassName>(arg1[, arg2])` on operands (Not X F G A E: one; And Or Imply U R: two)
+     `clone`                         arg1 = S-expression: `obj.clone()` for the object of <M> with that tree
+     `sub <int>` / `subs`            arg1 = S-expression: `obj.subformula(i)` / `obj.subformulas()` -/
+
+def decOperand (s : String) : Option FormulaApi.Operand :=
+  match words s with
+  | ["s", n] => some (.str (decName n))
+  | ["s"] => some (.str "")
+  | ["b", v] => some (.bool (v == "1"))
+  | ["B"] => some .base
+  | ["o"] => some .other
+  | m :: rest =>
+    match decLogic m, parseFm rest with
+    | some m, some (f, []) => some (.obj m f)
+    | _, _ => none
+  | [] => none
+
+def encFmE : Except Err Fm → String := encExcept encFm
+
+open PMC.FormulaApi in
+def fapi (m : Logic) (op : String) (args : List String) : String :=
+  let T := Classes.generatedTable
+  match words op, args with
+  | ["and"], [f, g] => (match decFm f, decOperand g with
+      | some f, some g => encFmE (andOp T m f g) | _, _ => "bad-op")
+  | ["rand"], [f, g] => (match decFm f, decOperand g with
+      | some f, some g => encFmE (randOp T m f g) | _, _ => "bad-op")
+  | ["or"], [f, g] => (match decFm f, decOperand g with
+      | some f, some g => encFmE (orOp T m f g) | _, _ => "bad-op")
+  | ["ror"], [f, g] => (match decFm f, decOperand g with
+      | some f, some g => encFmE (rorOp T m f g) | _, _ => "bad-op")
+  | ["not"], [f] => (match decFm f with | some f => encFmE (invert T m f) | none => "bad-op")
+  | ["clone"], [f] => (match decFm f with | some f => encFmE (cloneIn T m f) | none => "bad-op")
+  | ["subs"], [f] => (match decFm f with
+      | some f => "OK " ++ " ; ".intercalate ((subformulas f).map encFm) | none => "bad-op")
+  | ["sub", i], [f] => (match decFm f, i.toInt? with
+      | some f, some i => encFmE (subformula f i) | _, _ => "bad-op")
+  | [sc], [a] =>
+      (match decOperand a with
+       | some a =>
+         if sc == "AX" then encFmE (AX T a) else if sc == "EX" then encFmE (EX T a)
+         else if sc == "AF" then encFmE (AF T a) else if sc == "EF" then encFmE (EF T a)
+         else if sc == "AG" then encFmE (AG T a) else if sc == "EG" then encFmE (EG T a)
+         else "bad-op"
+       | none => "bad-op")
+  | [sc], [a, b] =>
+      (match decOperand a, decOperand b with
+       | some a, some b =>
+         if sc == "AU" then encFmE (AU T a b) else if sc == "EU" then encFmE (EU T a b)
+         else if sc == "AR" then encFmE (AR T a b) else if sc == "ER" then encFmE (ER T a b)
+         else "bad-op"
+       | _, _ => "bad-op")
+  | ["new", c], [a] =>
+      (match decOperand a, [Un.not, .X, .F, .G, .A, .E].find? (fun u => u.name == c) with
+       | some a, some u => encFmE (new1 T m u a)
+       | _, _ => "bad-op")
+  | ["new", c], [a, b] =>
+      (match decOperand a, decOperand b, [Bin.and, .or, .imp, .U, .R].find? (fun u => u.name == c) with
+       | some a, some b, some u => encFmE (new2 T m u a b)
+       | _, _, _ => "bad-op")
+  | _, _ => "bad-op"
+
+/-! ### `replace_labelling_function` (PMC/Model/KripkeApi.lean)
+
+  `KRELABEL|<S>|<S0>|<R>|<L>|<L2>|<probes>|<V>`   `K = Kripke(S, S0, R, L)`; `old = K.replace_labelling_function(L2)`; answer
+     `<dict after> / <labels()> / <labels(x) for every probe x, ` ; `-separated> / <clone()> / <get_substructure(V)> / <old>`
+     (dicts as `key:l1 l2;…` sorted by key, label sets sorted; structures as in KRIPKE) -/
+
+def encLabelDict (L : List (Nat × List String)) : String :=
+  let labs := (L.toArray.qsort (fun a b => a.1 < b.1)).toList
+  ";".intercalate (labs.map (fun p => s!"{p.1}:" ++ " ".intercalate (dedupStr (sortStr (p.2.map encName)))))
+
 /-! ### dispatch -/
 
 def step (line : String) : String :=
@@ -597,6 +681,24 @@ def step (line : String) : String :=
       encExcept encKripkeD (do
         let K ← KripkeD.make (natList s) (natList s0) (decPairs r) (decLabels l)
         K.clone)
+  | ["KRELABEL", s, s0, r, l, l2, probes, v] =>
+      (match KripkeD.make (natList s) (natList s0) (decPairs r) (decLabels l) with
+       | .error e => "ERR " ++ e.name
+       | .ok K =>
+         let L2 := decLabels l2
+         let K' := K.replaceLabelling L2
+         " / ".intercalate [
+           encLabelDict K'.labellingFunction,
+           " ".intercalate (dedupStr (sortStr (K'.allLabelsD.map encName))),
+           " ; ".intercalate ((natList probes).map (fun x =>
+             encExcept (fun ls => " ".intercalate (dedupStr (sortStr (ls.map encName)))) (K'.labelsAt x))),
+           encExcept encKripkeD K'.clone,
+           encExcept encKripkeD (K'.substructure (natList v)),
+           encLabelDict (K.replaceLabellingResult L2)])
+  | "FAPI" :: m :: op :: args =>
+      (match decLogic m with
+       | some m => fapi m op args
+       | none => "bad-op")
   | ["CTL", g, l, f] =>
       (match decFm f with
        | some f => encExcept encSet (CTL.modelcheck (decKripke g l) f)
